@@ -17,7 +17,7 @@ CONSTANTS
   Hist = FALSE
   SlackEarly = 2
   SlackLate = 1500
-  SlackSched = 120
+  SlackSched = 250
 INVARIANTS Report
 POSTCONDITION TraceAccepted
 CHECK_DEADLOCK FALSE
